@@ -22,7 +22,6 @@ NOT_APPLICABLE = {
     "C49": "numeric functions vs standards (hash/cipher outputs)",
     "C50": "numeric/algebraic (curve arithmetic)",
     "C51": "algorithmic no-false-negative properties of probabilistic filters",
-    "C54": "skip-list/ancestor correctness and 256-bit work arithmetic are algorithmic/numeric",
     "C56": "end-to-end wallet/mempool numeric property",
     "C60": "bit-level matching/parsing and ban-list semantics over sequences",
     "C61": "reference-model equivalence of containers/allocators",
